@@ -1142,9 +1142,11 @@ def stage_ser(ctx, have_model):
 
 
 # =============================================================================== two real AttestationCommunity nodes
-async def community_run(hash_mode_fmt, value, others, cheat, r):
+async def community_run(hash_mode_fmt, value, others, cheat, r, delivery="inorder"):
     """Prover node 0 holds an attestation of `value`; verifier node 1 runs verify_attestation_values.
-    cheat=None: honest prover.  cheat=bytes: the prover forges answers so that the profile of that value appears."""
+    cheat=None: honest prover.  cheat=bytes: the prover forges answers so that the profile of that value appears.
+    delivery: how each burst of challenge responses reaches the verifier: inorder / reversed / random / dup
+    (random order with some datagrams delivered twice) - UDP promises neither order nor uniqueness."""
     from ipv8.attestation.wallet import community as C
     from ipv8.attestation.wallet.community import AttestationCommunity, AttestationSettings
     from ipv8.test.mocking.endpoint import internet
@@ -1189,11 +1191,50 @@ async def community_run(hash_mode_fmt, value, others, cheat, r):
         calls.append(("honesty", ok))
         return ok
     BEA.process_honesty_challenge = spy
+    honesty_seen["challenges_seen"] = []     # sha1 of every challenge the prover was asked to answer
+    honesty_seen["aggregates"] = []          # the verifier's relativity map after each counted answer
+    orig_proc = BEA.process_challenge_response
+
+    def seen(self, SK, attestation, challenge):
+        honesty_seen["challenges_seen"].append(hashlib.sha1(challenge).hexdigest())
+        return orig_resp(self, SK, attestation, challenge)
+    BEA.create_challenge_response = seen
+
+    def counted(self, aggregate, challenge, response):
+        out = orig_proc(self, aggregate, challenge, response)
+        honesty_seen["aggregates"].append([aggregate[0], aggregate[1], aggregate[2], aggregate[3]])
+        return out
+    BEA.process_challenge_response = counted
+    # the prover's challenge responses (message 4) are held back and released burst by burst in the chosen order
+    held = []
+    ep = nodes[0].endpoint
+    orig_send = ep.send
+
+    def holding_send(address, packet):
+        if delivery != "inorder" and len(packet) > 22 and packet[22] == 4:
+            held.append((address, packet))
+        else:
+            orig_send(address, packet)
+    ep.send = holding_send
+
+    def flush():
+        burst = list(held)
+        del held[:]
+        if delivery == "reversed":
+            burst.reverse()
+        else:
+            r.shuffle(burst)
+            if delivery == "dup":
+                for item in list(burst):
+                    if r.random() < 0.4:
+                        burst.insert(r.randrange(len(burst) + 1), item)
+        for address, packet in burst:
+            orig_send(address, packet)
     if cheat is not None:
         def forged(self, SK, attestation, challenge):
             # decrypts like an honest prover, then relabels the class: 0 -> 1 -> 2 -> 0.  The verifier then sees
             # the rotated profile, which is the profile of the value `cheat` (chosen by the caller)
-            k = struct.unpack(">B", orig_resp(self, SK, attestation, challenge))[0]
+            k = struct.unpack(">B", seen(self, SK, attestation, challenge))[0]
             return struct.pack(">B", (k + 1) % 3 if k < 3 else k)
         BEA.create_challenge_response = forged
     done = asyncio.get_event_loop().create_future()
@@ -1204,11 +1245,15 @@ async def community_run(hash_mode_fmt, value, others, cheat, r):
                                        callback, hash_mode_fmt)
     try:
         idle = 0
+        held_before = 0
         for _ in range(3000):
-            n0 = len(calls)
+            n0 = len(calls) + len(honesty_seen["challenges_seen"])
             await asyncio.sleep(0.005)
+            if held and len(held) == held_before:       # the burst is complete: release it
+                flush()
+            held_before = len(held)
             pending = [c for c in verifier.request_cache._identifiers if c.startswith("proving")]
-            if len(calls) == n0:
+            if len(calls) + len(honesty_seen["challenges_seen"]) == n0 and not held:
                 idle += 1
             else:
                 idle = 0
@@ -1218,6 +1263,8 @@ async def community_run(hash_mode_fmt, value, others, cheat, r):
         C.os = saved_os
         BEA.process_honesty_challenge = orig_honesty
         BEA.create_challenge_response = orig_resp
+        BEA.process_challenge_response = orig_proc
+        ep.send = orig_send
         for nd_ in nodes:
             nd_.overlay.request_cache.clear()
             await nd_.stop()
@@ -1225,15 +1272,27 @@ async def community_run(hash_mode_fmt, value, others, cheat, r):
     return calls, honesty_seen
 
 
-def judge_community(ctx, fmt, value, others, cheat, calls, hon):
+def judge_community(ctx, fmt, value, others, cheat, calls, hon, delivery="inorder"):
     hm = {"id_metadata": "sha256_4", "id_metadata_big": "sha256", "id_metadata_huge": "sha512"}[fmt]
     hfun, bitspace = HASHES[hm]
     n = bitspace // 2
     truth = profile_of_int(hfun(value), bitspace)
     case = {"kind": "community", "format": fmt, "value": value.hex(), "others": [o.hex() for o in others],
-            "cheat": cheat.hex() if cheat is not None else None}
+            "cheat": cheat.hex() if cheat is not None else None, "delivery": delivery}
     cbs = [c[1] for c in calls if c[0] == "callback"]
     if cheat is None:
+        seen_ = hon.get("challenges_seen", [])
+        twice = sorted({h for h in seen_ if seen_.count(h) > 1})
+        if twice:
+            ctx.violation("community/challenge-sent-twice", "delivery %s: %d challenge(s) were sent to the honest prover more than once"
+                          % (delivery, len(twice)), case)
+        aggs = hon.get("aggregates", [])
+        if len(aggs) > n:
+            ctx.violation("community/answer-counted-twice", "delivery %s: %d answers were counted for %d bit pairs"
+                          % (delivery, len(aggs), n), case)
+        if cbs and aggs and aggs[-1] != truth:
+            ctx.violation("exact/profile-not-reconstructed", "community run, delivery %s: aggregate %r, profile of the hash %r"
+                          % (delivery, aggs[-1], truth), case)
         if hon["failed"]:
             ctx.violation("honesty/check-misjudges-honest-prover", "an honest prover failed %d honesty checks" % hon["failed"], case)
         if not cbs:
@@ -1267,10 +1326,12 @@ def stage_community(ctx):
     asyncio.set_event_loop(loop)
     stats = {"honest": 0, "cheat": 0, "cheat_caught": 0, "honesty_checks": 0}
     try:
-        plan = [("id_metadata", None)] * (3 if ctx.quick else 25) + [("id_metadata", "cheat")] * (4 if ctx.quick else 30)
+        plan = [("id_metadata", None, "inorder")] * (2 if ctx.quick else 10) + \
+               [("id_metadata", None, d) for d in ("reversed", "random", "dup")] * (2 if ctx.quick else 12) + \
+               [("id_metadata", "cheat", d) for d in ("inorder", "inorder", "random", "dup")] * (1 if ctx.quick else 8)
         if not ctx.quick:
-            plan += [("id_metadata_big", None)] * 2
-        for fmt, mode in plan:
+            plan += [("id_metadata_big", None, "inorder"), ("id_metadata_big", None, "random")]
+        for fmt, mode, delivery in plan:
             value = r.randbytes(r.choice([1, 4, 12]))
             others = [r.randbytes(3) for _ in range(3)]
             cheat = None
@@ -1287,10 +1348,11 @@ def stage_community(ctx):
                         if profile_of_int(hfun(c), bs) == rotated:
                             cheat = c
                             break
-            calls, hon = loop.run_until_complete(community_run(fmt, value, others, cheat, r))
+            calls, hon = loop.run_until_complete(community_run(fmt, value, others, cheat, r, delivery))
             stats["honesty_checks"] += hon["n"]
-            ctx.count(("community", fmt, value, cheat))
-            caught = judge_community(ctx, fmt, value, others, cheat, calls, hon)
+            stats[delivery] = stats.get(delivery, 0) + 1
+            ctx.count(("community", fmt, value, cheat, delivery))
+            caught = judge_community(ctx, fmt, value, others, cheat, calls, hon, delivery)
             if cheat is None:
                 stats["honest"] += 1
             else:
@@ -1437,8 +1499,8 @@ def rerun_case(ctx, case):
         out = []
         try:
             for attempt in range(6):      # the honesty check is drawn at random; look at several runs
-                calls, hon = loop.run_until_complete(community_run(case["format"], value, others, cheat, r))
-                judge_community(ctx, case["format"], value, others, cheat, calls, hon)
+                calls, hon = loop.run_until_complete(community_run(case["format"], value, others, cheat, r, case.get("delivery", "inorder")))
+                judge_community(ctx, case["format"], value, others, cheat, calls, hon, case.get("delivery", "inorder"))
                 out.append([c for c in calls if c[0] == "callback" or not c[1]])
                 if ctx.violations:
                     break
